@@ -315,6 +315,10 @@ def std_trait(engine, st, ty, tyb, tb, method, args, dest_ty):
         inner = unref(args[0])
         if isinstance(inner, ArcV):
             return ArcV(inner.cell)
+        if isinstance(inner, StateV):
+            return StateV(dict(inner.table))
+        if isinstance(inner, VecV):
+            return VecV([copy_value(x) for x in inner.items], inner.ty)
         return copy_value(inner)
     if tb == 'Default' and method == 'default':
         return default_for(engine, ty)
@@ -413,6 +417,8 @@ def iterator_method(engine, st, method, args, dest_ty):
         return IterV([copy_value(deref_all(x)) if isinstance(x, RefV) else x for x in it.items])
     if method == 'count':
         return IV(len(it.items))
+    if method == 'collect':
+        return VecV(list(it.items))
     if method == 'map':
         return IterV([engine.call_closure(st, args[1], [x]) for x in it.items])
     if method == 'fold':
@@ -562,6 +568,16 @@ def std_path(engine, st, name, args, dest_ty):
     # ---- Vec / slices
     if first == 'Vec' or '<impl [' in name or (len(segs) >= 2 and segs[-2] == 'Vec'):
         return seq_method(engine, st, last, args, dest_ty)
+    if 'HashMap' in name and last == 'get':
+        from symex import MapV
+        mp = deref_all(args[0])
+        key = deref_all(args[1])
+        if isinstance(mp, MapV) and isinstance(key, IV) and key.concrete() is not None:
+            k = key.concrete()
+            if k in mp.table:
+                return mk_option(True, RefV(mp, k), ty=dest_ty)
+            return mk_option(False, ty=dest_ty)
+        raise Inconclusive(f'hash map lookup {name}')
     if 'HashSet' in name or 'HashMap' in name:
         s = deref_all(args[0])
         if isinstance(s, SetV):
@@ -719,6 +735,22 @@ def seq_method(engine, st, method, args, dest_ty):
         if i < seq_len(s):
             return mk_option(True, RefV(s, i, method == 'get_mut'), ty=dest_ty)
         return mk_option(False, ty=dest_ty)
+    if method == 'binary_search':
+        # contract of slice::binary_search on a strictly increasing slice: Ok(i) iff x == s[i], else Err(#elements < x)
+        x = deref_all(args[1])
+        items = s.items if isinstance(s, VecV) else s.fields
+        opts = []
+        for i, it in enumerate(items):
+            opts.append((x.t == it.t, ('ok', i)))
+        for p in range(len(items) + 1):
+            conds = []
+            if p > 0:
+                conds.append(items[p - 1].t < x.t)
+            if p < len(items):
+                conds.append(x.t < items[p].t)
+            opts.append((z3.And(*conds) if conds else z3.BoolVal(True), ('err', p)))
+        kind, idx = engine.choose(st, opts)
+        return EnumV(dest_ty or 'Result', 0 if kind == 'ok' else 1, {(0 if kind == 'ok' else 1): [IV(idx)]})
     if method in ('first', 'last'):
         n = seq_len(s)
         if n == 0:
